@@ -16,31 +16,51 @@ ROOT = os.path.dirname(os.path.dirname(os.path.abspath(__file__)))
 # (name, file, old, new, function key, obligation substring expected to fail)
 MUTANTS = [
     ('add_system >=', 'Core.py', 'if s.priority > self.execution_queue[i].priority:',
-     'if s.priority >= self.execution_queue[i].priority:', 'Core.SystemManager.add_system', 'SM_rep'),
+     'if s.priority >= self.execution_queue[i].priority:', 'Core.SystemManager.add_system', 'add_system'),
     ('activation t % f', 'Core.py', '(sys.start - self.timestep) % sys.frequency == 0',
-     'self.timestep % sys.frequency == 0', 'Core.SystemManager.execute_systems', 'mon_due'),
+     'self.timestep % sys.frequency == 0', 'Core.SystemManager.execute_systems', 'execute_systems'),
     ('window end exclusive', 'Core.py', 'sys.start <= self.timestep <= sys.end', 'sys.start <= self.timestep < sys.end',
-     'Core.SystemManager.execute_systems', 'exec_inv_runs'),
+     'Core.SystemManager.execute_systems', 'execute_systems'),
+    ('wrap uses height for x', 'Environments.py', 'component.x = (component.x + x) % self.width',
+     'component.x = (component.x + x) % self.height', 'Environments.SpaceWorld.move', 'move_post'),
+    ('tag filter on truthiness', 'Core.py', 'if tag is not None:\n            matching_agents = [a for a in matching_agents if a.tag == tag]',
+     'if tag:\n            matching_agents = [a for a in matching_agents if a.tag == tag]', 'Core.Environment.get_agents',
+     'get_agents_post'),
+    ('deregister keeps empty pool', 'Core.py', 'if len(self.component_pools[type(component)]) == 0:',
+     'if len(self.component_pools[type(component)]) < 0:', 'Core.SystemManager.deregister_component', 'deregister'),
 ]
 HARMLESS = [
     ('keys() dropped', 'Core.py', 'if s.id in self.systems.keys():', 'if s.id in self.systems:',
      'Core.SystemManager.add_system'),
-    ('renamed local', 'Core.py', 'for sys in self.execution_queue:  # Simple execute cycle\n            if not self.model.is_running():\n                break\n            if sys.start <= self.timestep <= sys.end and (sys.start - self.timestep) % sys.frequency == 0:\n                sys.execute()',
-     'for system in self.execution_queue:\n            if not self.model.is_running():\n                break\n            if system.start <= self.timestep <= system.end and (system.start - self.timestep) % system.frequency == 0:\n                system.execute()',
-     'Core.SystemManager.execute_systems'),
+    ('renamed loop variable', 'Core.py', 'for ckey in agent.components:\n                self.model.systems.register_component(agent[ckey])',
+     'for ctype in agent.components:\n                self.model.systems.register_component(agent[ctype])',
+     'Core.Environment.add_agent'),
 ]
 
 
-def _verify(repo, key, timeout_ms=6000):
+class _Rep:
+    pass
+
+
+def _verify(repo, key, timeout_ms=8000):
     sys.path.insert(0, ROOT)
     from pyvc.frontend import Program
     from pyvc.specs import REG
     import contracts.all     # noqa: F401
     from pyvc import verify, solve
     prog = Program(repo)
-    rep = verify.verify_function(prog, REG, key)
-    solve.discharge(rep.obs, timeout_ms=timeout_ms, want_model=False)
-    return rep
+    c = REG.contracts[key]
+    out = _Rep()
+    out.obs, out.error = [], None
+    for mode in c.modes:
+        for case in (c.cases or [None]):
+            if case is not None and case.get('mode') not in (None, mode):
+                continue
+            rep = verify.verify_function(prog, REG, key, mode=mode, case=case)
+            out.obs += rep.obs
+            out.error = out.error or rep.error
+    solve.discharge(out.obs, timeout_ms=timeout_ms, want_model=False, fallback=False)
+    return out
 
 
 def run(fast=False):
